@@ -179,6 +179,10 @@ func (d *Dialer) dialContext(ctx context.Context, network, address string) (net.
 		dial = d.testingDialContext
 	}
 
+	if f := verifDial(); f != nil {
+		dial = f
+	}
+
 	attempts := d.rt.Attempts
 	if attempts <= 0 {
 		attempts = 1
@@ -312,6 +316,9 @@ func (l *Listener) Listen() error {
 }
 
 func (l *Listener) listen() (net.Listener, error) {
+	if f := verifListen(); f != nil {
+		return f(l.Address)
+	}
 	lc := &net.ListenConfig{
 		KeepAlive:       -1,
 		KeepAliveConfig: l.ListenerConfig.KeepAliveConfig,
